@@ -478,8 +478,9 @@ impl Lane {
         }
     }
 
-    fn meter_begin(&mut self) -> Option<std::time::Instant> {
+    fn meter_begin(&mut self, bytes: &[u8]) -> Option<std::time::Instant> {
         if self.meter {
+            crate::label::arm(bytes);
             crate::watch::begin();
             mc_kit::alloc::mark();
             Some(std::time::Instant::now())
@@ -493,6 +494,7 @@ impl Lane {
             self.last_nanos = t0.elapsed().as_nanos();
             self.last_peak = mc_kit::alloc::peak();
             crate::watch::end();
+            crate::label::disarm();
         }
     }
 
@@ -656,7 +658,7 @@ impl Lane {
     /// Feeds an event given as bytes (bridges only).
     pub fn event_bytes(&mut self, bytes: &[u8]) -> Outcome {
         let drv = self.drv.take().expect("lane in use");
-        let t0 = self.meter_begin();
+        let t0 = self.meter_begin(bytes);
         let r = mc_kit::catch(|| match &drv {
             Driver::Twin(_) => panic!("harness: bytes offered to the typed core"),
             Driver::Bin(b) => b.process_event(bytes),
@@ -723,7 +725,7 @@ impl Lane {
     pub fn respond_bytes(&mut self, h: usize, bytes: &[u8]) -> Outcome {
         let id = self.reqs[h].id;
         let drv = self.drv.take().expect("lane in use");
-        let t0 = self.meter_begin();
+        let t0 = self.meter_begin(bytes);
         let r = mc_kit::catch(|| match &drv {
             Driver::Twin(_) => panic!("harness: bytes offered to the typed core"),
             Driver::Bin(b) => b.handle_response(id, bytes),
@@ -963,6 +965,8 @@ pub struct System {
     /// per bridge lane: ids of resolvable requests that have completed
     pub(crate) freed: Vec<std::collections::BTreeSet<u32>>,
     pub garbage_used: bool,
+    /// C12: the valid steps so far in the compact form the allocation-guard labels use
+    pub trail: String,
     /// C11: hash chain over (outcome class, canonical batch bytes, view bytes) of every lane
     /// after every step
     pub record: bool,
@@ -1025,6 +1029,7 @@ impl System {
             stats: SysStats::default(),
             freed: kinds.iter().map(|_| Default::default()).collect(),
             garbage_used: false,
+            trail: String::new(),
             record: false,
             transcript: 0xcbf29ce484222325,
             fault: None,
@@ -1079,12 +1084,18 @@ impl System {
             Step::BadResp(k, b) => return self.bad_response(*k, b),
             Step::BadNote(j, b) => return self.bad_note(*j, b),
             Step::Ev(i) => {
+                if self.fault.is_some() {
+                    self.trail.push_str(&format!("E{i}."));
+                }
                 for lane in self.lanes.iter_mut() {
                     outcomes.push(lane.event_typed(menu_event(*i)));
                 }
             }
             Step::Resp(k) => {
                 let k = *k;
+                if self.fault.is_some() {
+                    self.trail.push_str(&format!("R{k}."));
+                }
                 let entry = &self.out[k];
                 for (li, lane) in self.lanes.iter_mut().enumerate() {
                     let h = entry.h[li];
@@ -1380,8 +1391,19 @@ impl System {
             });
         }
         for lane in self.lanes.iter_mut() {
-            if let Some((_never, once, many)) = lane.gauges().registry {
-                let (_, lo, lm) = lane.live_by_kind();
+            if let Some((never, once, many)) = lane.gauges().registry {
+                let (ln, lo, lm) = lane.live_by_kind();
+                // every notification keeps a `Never` entry (K3, C13's business); more `Never`
+                // entries than notifications sent means a used-up request is still registered
+                if never > ln {
+                    findings.push(Finding {
+                        key: "registry/used-up-entry-not-removed".into(),
+                        what: format!(
+                            "{}: {never} `Never` entries in the registry but only {ln} unanswered notifications were ever sent: the entry of a used-up request is still there",
+                            lane.kind.name()
+                        ),
+                    });
+                }
                 // one-shot entries leave the registry the moment they are used; ended streams
                 // may linger (D4, C13's business), so only a lower bound for `many`
                 if once != lo || many < lm {
